@@ -10,7 +10,7 @@ def add(i, cat, tech, text, note, ref): CHECKS[i] = (cat, tech, text, note, ref)
 
 add("C01", "model_checking",
     "exhaustive product enumeration + depth-bounded explicit-state search of instruction sequences on the real Machine, lock-step against REF-ISA",
-    "Every point of the stated per-instruction products (all 8 reg-reg ALU ops x 16 register pairs x all 65 536 value pairs x carry-in in the thorough tier; every other opcode x 256 values x 16 flags x FR upper bits x 4 SPs; 16 x 128 two-byte forms x pointer-set^2 x placements) is executed on the real machine from boundary to boundary and compared with an instruction-level reference; all instruction sequences up to depth 2/3 over a 48-instruction alphabet from 3 start states are compared after every instruction (a first-byte STOP is followed by the continue key and the comparison goes on); code executing out of the I/O page (every byte pair in the input registers at PC=0xFC, every byte on the board port at PC=0xF0); the repository's programs, assembled by REF-ASM, in lock-step for up to 1 500 / 20 000 instructions; the sequence and program runs are repeated with the public read-only API called after every clock edge (results and edge counts must not move). The reference I/O page is REF-BUS (not a real Bus), so address-decoding faults show through instructions.",
+    "Every point of the stated per-instruction products (all 8 reg-reg ALU ops x 16 register pairs x all 65 536 value pairs x carry-in in the thorough tier; every other opcode x 256 values x 16 flags x FR upper bits x 4 SPs; 16 x 128 two-byte forms x pointer-set^2 x placements) is executed on the real machine from boundary to boundary and compared with an instruction-level reference; all instruction sequences up to depth 2/3 over a 48-instruction alphabet from 3 start states are compared after every instruction (a first-byte STOP is followed by the continue key and the comparison goes on); code executing out of the I/O page (every byte pair in the input registers at PC=0xFC, every byte on the board port at PC=0xF0); the repository's programs, assembled by REF-ASM, in lock-step for up to 1 500 / 20 000 instructions; every instruction of the sequence alphabet followed by an accepted key interrupt (result and cost of the interval instruction + interrupt entry); the sequence and program runs are repeated with the public read-only API called after every clock edge (results and edge counts must not move). The reference I/O page is REF-BUS (not a real Bus), so address-decoding faults show through instructions.",
     "Trusted: REF-ISA (statement clauses normative, frozen corners in refmodel/FROZEN.md); I/O side delegated to a real Bus (C10/C14); states with SP>=0xF0 left to C05; sequences longer than the bound and RAM contents outside the pattern family are outside the verdict.",
     "DESIGN.md 3/C01")
 add("C08", "model_checking",
@@ -94,7 +94,7 @@ add("C13", "exploration",
     "DESIGN.md 3/C13")
 
 add("C12", "model_checking",
-    "exhaustive enumeration of run schedules (program x configuration x every budget 0..40/60 x every sub-multiset of interrupt cycles x every sub-multiset of reset cycles from the boundary sets) on the real RunnerConfig::run against a reference loop over the public Machine API; all expectation subsets x match/mismatch for verify(); constructor == setters for every configuration field and pair; a RunnerConfig run twice and with fields assigned anew; stdout and exit status of the real binary per invocation (every byte literal in every spelling, 24 argument orders, -vvvv, budgets up to usize::MAX); error values and rendered messages of verify keep found/expected in their roles",
+    "exhaustive enumeration of run schedules (program x configuration x every budget 0..40/60 x every sub-multiset of interrupt cycles x every sub-multiset of reset cycles from the boundary sets) on the real RunnerConfig::run against a reference loop over the public Machine API; all expectation subsets x match/mismatch for verify(); constructor == setters for every configuration field and pair; a RunnerConfig run twice and with fields assigned anew; stdout and exit status of the real binary per invocation (every byte literal in every spelling, 24 argument orders, -vvvv, budgets up to usize::MAX, the program through a pipe); error values and rendered messages of verify keep found/expected in their roles",
     "emulated_cycles and the whole final Machine (PartialEq) equal REF-RUN's for every schedule; RunExpectations::verify is Ok exactly when every stated field matches and reports a stated mismatching field; the binary prints those cycle/state/FE/FF values, accepts every byte value in every spelling of the three radices as an input flag and as an expectation, is independent of the order of positionals, options and --opt=value spellings (all 24 orders), rejects 256/0x100, and exits non-zero exactly on read, parse or verification failure.",
     "Trusted: REF-RUN (the statement's loop); parse/compile are shared with the subject (C02/C03); CLI argument errors only need to exit non-zero without running.",
     "DESIGN.md 3/C12")
